@@ -236,10 +236,8 @@ func (l *List) M__setitem__(key, value Object) (Object, error) {
 			if len(newItems) != slicelength {
 				return nil, ExceptionNewf(ValueError, "attempt to assign sequence of size %d to extended slice of size %d", len(newItems), slicelength)
 			}
-			j := 0
-			for i := start; i < stop; i += step {
+			for i, j := start, 0; j < slicelength; i, j = i+step, j+1 {
 				l.Items[i] = newItems[j]
-				j++
 			}
 		}
 	} else {
